@@ -80,6 +80,8 @@ def short_callee(c):
 
 def run(chk):
     w = C.world_for(chk)
+    from . import ctors as _acc
+    _acc.accessors(chk, w, only=["vaporetto::sentence::"])
     for rid, txt in (("R18.2", "unsafe inventory complete and every obligation re-derived"), ("R03.2", "UTF-8 validity of the as_mut_vec region (shared with C03)"),
                      ("R11.3", "to_int_unchecked guards (shared with C11)"), ("R06.3", "state vectors (shared with C06)"), ("R15.3", "wsconst ranges (shared with C15)"),
                      ("R05.4", "non-empty sentences (shared with C05)")):
